@@ -36,7 +36,7 @@ OPTION_TYPES = [
     ['OptA9006', 'OptA9006 ::= SEQUENCE { id9007 INTEGER, '
                  'data9008 ANY DEFINED BY id9007 }'],
     ['OptS9009', 'OptS9009 ::= SEQUENCE { s9010 UTF8String DEFAULT '
-                 '"éè", n9011 INTEGER }'],
+                 '"é è", n9011 INTEGER }'],
 ]
 TRAILER_HEAD = 'ModZ DEFINITIONS ::= BEGIN Zb9012 ::= INTEGER --'
 TRAILER_TAIL = '(0..7)\nEND\n'
@@ -181,6 +181,25 @@ def samesize_variant(files, index):
     letter = 'yzwvu'[index % 5]
 
     return [[name, text.replace('x9005 INTEGER', letter + '9005 INTEGER')]
+            for name, text in files]
+
+
+def lexical_variant(files, index):
+    """Edits that a normalising key (whitespace collapsed, comments
+    stripped, case folded, line ends unified) could take for insignificant
+    although they change the codec: white-space inside a string literal,
+    an identifier that differs in case only."""
+
+    old_default = 'DEFAULT "é è"'
+    new_default = ['DEFAULT "é  è"', 'DEFAULT "é\tè"', 'DEFAULT "é\u00a0è"',
+                   'DEFAULT "é è "', None][index % 5]
+
+    if new_default is None:
+        # Enumerator aa9003 -> aA9003 (differs in case only).
+        return [[name, text.replace('aa9003', 'aA9003')]
+                for name, text in files]
+
+    return [[name, text.replace(old_default, new_default)]
             for name, text in files]
 
 
@@ -405,6 +424,9 @@ class C17(Engine):
         # ... two that keep every file's size (an edit a size/mtime based
         # shortcut would not notice) ...
         variants += [samesize_variant(files, 1), samesize_variant(files, 2)]
+        # ... two that differ from the original lexically only ...
+        lexical = random.Random(mix(run_seed, 'lexical')).sample(range(5), 2)
+        variants += [lexical_variant(files, i) for i in lexical]
         # ... and two with equal concatenated bytes but different file
         # boundaries.
         joined = [[files[0][0], ''.join(t for _, t in files)
@@ -550,6 +572,18 @@ class C17(Engine):
                         'role': rng.choice(['db', 'db', 'wal', 'val[*]',
                                             'val[*]']),
                         'fraction': rng.random(), 'bit': rng.randrange(8)})
+
+        if rng.random() < 0.5:
+            # Whatever the first call stored besides its own entry is read
+            # by a call with another codec / option.
+            other = dict(args)
+
+            if rng.random() < 0.5:
+                other['codec'] = rng.choice([c for c in CODECS if c != codec])
+            else:
+                other['numeric_enums'] = True
+
+            ops.append(dict(other, op='compile'))
 
         ops.append(dict(args, op='compile'))
 
